@@ -25,6 +25,19 @@ def fold(key, convert_unicode=True):
     return re.sub(r"[\W_]", "", k).lower()
 
 
+ONES = ['', 'one', 'two', 'three', 'four', 'five', 'six', 'seven', 'eight', 'nine']
+
+
+def reserved_words(framework):
+    """names a clean key cannot keep (documented: keywords, builtins, a few common names, names the module imports)."""
+    import builtins
+    r = set(keyword.kwlist) | set(dir(builtins)) | {"datetime", "time", "date", "defaultdict", "schema"}
+    r |= {"field", "attr", "optional", "dataclass"}
+    if framework in ("pydantic", "sqlmodel"):
+        r |= {"construct", "copy", "dict", "json", "validate", "fields"}
+    return r
+
+
 def imported_names(tree):
     names = set()
     for node in tree.body:
